@@ -95,3 +95,13 @@ def call(fn, *args, **kwargs):
         if kind == "harness":
             raise HarnessError(text) from None
         raise Crash(type(exc).__name__, str(exc)[:300], where, text) from None
+
+
+def call_supported(fn, *a, **kw):
+    """Like ``call`` for inputs that the property quantifies over and the unchanged tree accepts: an explicit rejection
+    by jinns is then not an 'unsupported configuration' but a failure of the property for that input (``Crash``)."""
+    try:
+        return call(fn, *a, **kw)
+    except Unsupported as u:
+        raise Crash("Refused", u.reason, u.where, "explicit rejection of an input the property quantifies over: %s" % u.reason)
+
